@@ -66,7 +66,7 @@ def check(case):
 
 def check_large_tied(case):
     """One group of 20 000 - 30 000 rows whose scores take only a few distinct values (rounded probabilities, tree
-    scores) beside smaller groups: the expected constrained metric is still equal across groups.  The data are a
+    scores) beside smaller groups (or, in a quarter of the cases, 10-30 groups of 40-300 rows): the expected constrained metric is still equal across groups.  The data are a
     deterministic function of the drawn seed; the oracle is the first-principles rate per group (numpy)."""
     import numpy as np
     from fairlearn.postprocessing import ThresholdOptimizer
@@ -115,6 +115,8 @@ def check_large_tied(case):
     tags = ["nt"]
     if max(case["sizes"]) >= 20000:
         tags.append("group>=20000_rows")
+    if len(case["sizes"]) >= 10:
+        tags.append("groups>=10")
     return tags
 
 
@@ -125,6 +127,9 @@ def _large_tied_strategy():
     def _s(draw):
         k = draw(st.integers(2, 3))
         sizes = [draw(st.sampled_from([20000, 24000, 30000]))] + [draw(st.sampled_from([300, 2000, 21000, 50])) for _ in range(k - 1)]
+        if draw(st.integers(0, 3)) == 0:  # many groups instead of one huge group
+            k = draw(st.integers(10, 30))
+            sizes = [draw(st.sampled_from([40, 100, 300])) for _ in range(k)]
         constraint = draw(st.sampled_from(sorted(T.SIMPLE) + ["equalized_odds"]))
         objective = "accuracy_score" if constraint == "equalized_odds" else draw(st.sampled_from(["accuracy_score", "balanced_accuracy_score"]))
         return {"sizes": [sizes[i] for i in draw(st.permutations(range(k)))], "levels": draw(st.sampled_from([3, 7, 20, 100])),
@@ -148,7 +153,7 @@ SUBS = [
                 "vertical_segment": 0.05, "p_ignore>0": 0.03, "flip_used": 0.03, "equalized_odds": 0.05,
                 "groups>=3": 0.2}),
     Sub("parity_large_tied_groups", check_large_tied, strategy=_large_tied_strategy, quick=32, thorough=400, shards=16,
-        shrink_quick=False, floors={"group>=20000_rows": 0.5}),
+        shrink_quick=False, floors={"group>=20000_rows": 0.4, "groups>=10": 0.08}),
     Sub("parity_exhaustive", check, enumerate=_enumerate, shards=16, exhaustive=True,
         floors={"nt": 0.26, "p_ignore>0": 0.01, "flip_used": 0.01, "vertical_segment": 0.01}),
 ]
